@@ -42,6 +42,7 @@ def sha_tree():
     kf = os.path.join(VERIF, "known_findings.jsonl")
     v = subprocess.run(["verus", "--version"], capture_output=True, text=True).stdout
     h.update(v.encode())
+    h.update(("seed=%d" % (int(os.environ.get("VERIF_SEED", "0")) % 100000)).encode())   # a run under another solver seed is another run
     return h.hexdigest()[:24]
 
 
